@@ -13,6 +13,7 @@ func init() {
 	verifRegister("VerifC12_KInt", VerifC12_KInt)
 	verifRegister("VerifC12_KSym", VerifC12_KSym)
 	verifRegister("VerifC12_KQuote", VerifC12_KQuote)
+	verifRegister("VerifC12_KDeepShared", VerifC12_KDeepShared)
 	verifRegister("VerifC12_KModes", VerifC12_KModes)
 	verifRegister("VerifC12_KLayout", VerifC12_KLayout)
 }
@@ -160,6 +161,37 @@ func VerifC12_KQuote() {
 	vCover("end")
 }
 
+// deep values and values with SHARED sub-lists (the same node reached twice — a DAG, not a cycle):
+// the printer's cycle guard arms at a fixed depth, and everything around that depth must still print
+// as ordinary, readable text.  The nesting depth is solver-chosen around the guard's threshold.
+func VerifC12_KDeepShared() {
+	d := vndInt("depth")
+	vAssume(d >= vParam("mindepth", 58))
+	vAssume(d <= vParam("maxdepth", 70))
+	d = vConcInt(d)
+	x := lisp.QExpr([]*lisp.LVal{lisp.Int(7), lisp.String("s")})
+	var v *lisp.LVal
+	switch vConcInt(vndChoice("shape", 4)) {
+	case 0: // the shared node twice, side by side
+		v = lisp.QExpr([]*lisp.LVal{x, x})
+	case 1: // once directly and once one level further down
+		v = lisp.QExpr([]*lisp.LVal{x, lisp.QExpr([]*lisp.LVal{x})})
+	case 2: // no sharing at all
+		v = lisp.QExpr([]*lisp.LVal{lisp.QExpr([]*lisp.LVal{lisp.Int(7)}), lisp.QExpr([]*lisp.LVal{lisp.Int(7)})})
+	case 3: // shared three times
+		v = lisp.QExpr([]*lisp.LVal{x, x, x})
+	}
+	for i := 0; i < d; i++ {
+		v = lisp.QExpr([]*lisp.LVal{v})
+	}
+	text := v.String()
+	vAssert(!strings.Contains(text, "#<"), "a value without cycles prints without an unreadable marker, at every depth")
+	exprs, ok := parseStrict(text)
+	vAssert(ok && len(exprs) == 1, "the printed value is accepted by the reader")
+	vAssert(exprs[0].String() == text, "print -> read -> print is stable")
+	vCover("end")
+}
+
 // every source text of <= n bytes: all three readers reject, or all accept with identical trees.
 func VerifC12_KModes() {
 	n := vndChoice("len", vParam("maxlen", 2)) + 1
@@ -190,6 +222,12 @@ func VerifC12_KLayout() {
 		{"(", "-", "1", "2", ")"},
 		{"(", "-", "x", "-", "1.5", ")"},
 		{"(", "+", "1", "'", "-", ")"},
+		// dash runs next to every kind of closing bracket
+		{"[", "--", "]"},
+		{"[", "a", "--", "]"},
+		{"(", "--", ")"},
+		{"[", "-", "]", "(", "-", ")"},
+		{"'", "[", "--", "]"},
 	}
 	si := vndChoice("skeleton", len(skeletons))
 	toks := skeletons[si]
